@@ -70,8 +70,12 @@ Definition acc_by_height (h height count : Z) : rpc_out :=
   else if h =? 0 then (0, [], 0)
   else (0, more_by_height h height count, h).
 
-(* momentumStore.GetMomentumsByHeight: the range, then getMomentumsByRange's allocation and loop *)
-Definition mom_range (height : Z) (higher : bool) (count : Z) : Z * Z :=
+(* momentumStore.GetMomentumsByHeight: the range (translated), then getMomentumsByRange's allocation and loop (hand-modelled) *)
+(* the range computation is TRANSLATED from chain/momentum/momentum.go (go2coq, opaque callee getMomentumsByRange):
+   Pure.GetMomentumsByHeight_range returns the (from, to) passed to getMomentumsByRange *)
+Definition mom_range (height : Z) (higher : bool) (count : Z) : Z * Z := GetMomentumsByHeight_range height higher count.
+(* closed form used in the proofs (PagingProofs.mom_range_eq shows it equal to the translation) *)
+Definition mom_range_hand (height : Z) (higher : bool) (count : Z) : Z * Z :=
   if higher then (height, u64 (height + count))
   else ((if u64 (height + 1) <=? count then 1 else u64 (u64 (height + 1) - count)), u64 (height + 1)).
 (* make([]*Momentum, 0, to-from): the run time refuses capacities beyond the address space; 2^40 stands for that bound *)
